@@ -9,9 +9,18 @@ Streams
            object identity and contents logged after every request must never change.
   oracle   generated project trees whose every file writes a sentinel when imported (conftest.py, setup.py,
            sitecustomize.py, usercustomize.py, gi.py / gi package, *.pth, sourceless .pyc, fake extension
-           module, packages) x query and refactoring methods x project options: no sentinel, no `exec`
-           audit event of a project file in host or helper, host sys.path / sys.modules / cwd / os.environ
-           unchanged.
+           module, packages, and files named like every module jedi's own import statements mention that the
+           host cannot resolve - numpydoc/docscrape, colorama, read off the jedi sources under test) whose
+           functions and classes carry numpy / sphinx / epydoc / plain docstrings x query and refactoring
+           methods (a third of them on the value of a call, an attribute of an instance or a documented
+           parameter inside the planted file itself) x project options: no sentinel, no `exec` audit event of
+           a project file in host or helper, host sys.path / sys.modules / cwd / os.environ unchanged.
+  hostimport  one fresh process per case: directories that hold a package named like jedi's lazily imported
+           optional dependency, some on the host's own sys.path, some only on the analysed project's sys
+           path (project root, sys_path=, added_sys_path=), a history of 1-3 docstring-consulting queries:
+           which directory's package the host executed (log) = Model.NoExec.lazyHistory with the path shape
+           the translator read from docstrings._get_numpy_doc_string_cls; the oracle: nothing outside the
+           host's own sys.path is executed, sys.path / cwd / environ unchanged.
 """
 import gc
 import json
@@ -32,8 +41,14 @@ MANIFEST = dict(
          'imported unless its top-level name is in settings.auto_import_modules (python_files_parsed_only); '
          'load_module / get_module_info leave the helper\'s sys.path the object it was, on every exit path '
          '(sys_path_restored*); the package contains no other __import__/exec/eval call site '
-         '(only_import_sites, a table extracted from all of jedi/*.py). Tie: translator + correspondence of '
-         'every import_module call + audit hooks in host and helper + sentinel oracle.',
+         '(only_import_sites, a table extracted from all of jedi/*.py). Host side: the lazy import of the '
+         'optional dependency numpydoc in docstrings._get_numpy_doc_string_cls is resolved against the host\'s '
+         'own sys.path only, over every finder, project sys path and history of look-ups '
+         '(host_import_only_from_host_path, host_import_history_only_host_path, project_dir_not_executed_by_host, '
+         'host_import_at_most_once; witness extended_path_executes_project_witness), and no other place in the '
+         'package writes sys.path or imports a foreign module (only_sys_path_write_sites, '
+         'only_foreign_import_sites). Tie: translator + correspondence of every import_module call and of the '
+         'host-side lazy import in fresh processes + audit hooks in host and helper + sentinel oracle.',
     note='The negative over all code paths of jedi is not a theorem: only the loader funnel is, the rest is '
          'pinned by the extracted table of dynamic-import call sites and observed by audit hooks / sentinels. '
          'The finder (importlib) and the import system itself are parameters.',
@@ -65,20 +80,89 @@ def sentinel_code(sentdir, name):
             % (sentdir, name))
 
 
-def module_body(sentdir, name):
+DOC_STYLES = ['numpy', 'sphinx', 'epydoc', 'plain', 'none']
+
+
+def docstrings_for(style, tag):
+    """(function docstring, class docstring): the types named are classes of the module itself"""
+    t = 'Cls_' + tag
+    if style == 'numpy':
+        return ('    """\n    Do something.\n\n    Parameters\n    ----------\n    a : %s\n        first\n'
+                '    b : int, optional\n\n    Returns\n    -------\n    %s\n        the result\n    """\n' % (t, t),
+                '    """\n    Parameters\n    ----------\n    content : %s\n    """\n' % t)
+    if style == 'sphinx':
+        return ('    """\n    Do something.\n\n    :param a: first\n    :type a: %s\n    :rtype: %s\n    """\n' % (t, t),
+                '    """\n    :type content: %s\n    """\n' % t)
+    if style == 'epydoc':
+        return ('    """\n    Do something.\n\n    @type a: %s\n    @rtype: %s\n    """\n' % (t, t),
+                '    """\n    @type content: %s\n    """\n' % t)
+    if style == 'plain':
+        return ('    """Do something with a and b, give it back."""\n', '    """A class."""\n')
+    return ('', '')
+
+
+def module_body(sentdir, name, style='none'):
     tag = name.replace('.', '_').replace('/', '_')
+    fdoc, cdoc = docstrings_for(style, tag)
     return (sentinel_code(sentdir, name) +
-            "VALUE_%s = 1\n\n\ndef func_%s(a, b=2):\n    return a\n\n\nclass Cls_%s:\n    attr = 1\n\n"
-            "    def meth(self, x):\n        return x\n" % (tag, tag, tag))
+            "VALUE_%s = 1\n\n\ndef func_%s(a, b=2):\n%s    return a\n\n\nclass Cls_%s:\n%s    attr = 1\n\n"
+            "    def __init__(self, content=None):\n        self.content = content\n\n"
+            "    def meth(self, x):\n        return x\n" % (tag, tag, fdoc, tag, cdoc))
 
 
-def make_project(root, rng):
+def host_import_names(jedi_dir):
+    """dotted names that jedi's own `import` statements mention and that the process running jedi cannot
+    resolve (optional dependencies, imported lazily in the host): a project file of that name is the only
+    candidate such a statement could ever find.  Read off the sources of the jedi under test."""
+    import ast
+    import importlib.util
+    found = set()
+    for root_, dirs, files in os.walk(jedi_dir):
+        dirs[:] = [x for x in dirs if x not in ('third_party', '__pycache__')]
+        for fn in files:
+            if not fn.endswith('.py'):
+                continue
+            try:
+                with open(os.path.join(root_, fn), encoding='utf-8') as f:
+                    tree = ast.parse(f.read())
+            except (OSError, SyntaxError):
+                continue
+            for n in ast.walk(tree):
+                if isinstance(n, ast.Import):
+                    names = [a.name for a in n.names]
+                elif isinstance(n, ast.ImportFrom) and n.level == 0 and n.module:
+                    names = [n.module]
+                else:
+                    continue
+                for nm in names:
+                    top = nm.split('.')[0]
+                    if top in ('jedi', 'parso', '__main__') or top in sys.modules:
+                        continue
+                    try:
+                        spec = importlib.util.find_spec(top)
+                    except (ImportError, ValueError):
+                        spec = None
+                    if spec is None:
+                        found.add(nm)
+    return sorted(found)
+
+
+def make_project(root, rng, host_names=()):
     """returns description of the tree; every importable file writes a sentinel"""
     sent = os.path.join(root, '_sentinels')
     proj = os.path.join(root, 'proj')
     os.makedirs(sent)
     os.makedirs(proj)
     mods = []
+    files = {}
+
+    def write(rel, name):
+        path = os.path.join(proj, rel)
+        os.makedirs(os.path.dirname(path), exist_ok=True)
+        text = module_body(sent, name, DOC_STYLES[rng.randrange(len(DOC_STYLES))])
+        with open(path, 'w') as f:
+            f.write(text)
+        files[rel] = text
     names = [n for n in ADVERSARIAL if rng.random() < 0.75]
     if 'gi' not in names and rng.random() < 0.6:
         names.append('gi')
@@ -87,22 +171,29 @@ def make_project(root, rng):
     gi_pkg = rng.random() < 0.5
     for n in names:
         if n == 'gi' and gi_pkg:
-            os.makedirs(os.path.join(proj, 'gi'))
-            with open(os.path.join(proj, 'gi', '__init__.py'), 'w') as f:
-                f.write(module_body(sent, 'gi'))
-            with open(os.path.join(proj, 'gi', 'repository.py'), 'w') as f:
-                f.write(module_body(sent, 'gi.repository'))
+            write('gi/__init__.py', 'gi')
+            write('gi/repository.py', 'gi.repository')
             mods += ['gi', 'gi.repository']
         else:
-            with open(os.path.join(proj, n + '.py'), 'w') as f:
-                f.write(module_body(sent, n))
+            write(n + '.py', n)
             mods.append(n)
     # a package with a submodule and its own conftest
-    os.makedirs(os.path.join(proj, 'pkg'))
     for n in ('__init__', 'sub', 'conftest'):
-        with open(os.path.join(proj, 'pkg', n + '.py'), 'w') as f:
-            f.write(module_body(sent, 'pkg.' + n))
+        write('pkg/%s.py' % n, 'pkg.' + n)
     mods += ['pkg', 'pkg.sub']
+    # files named like the modules jedi itself tries to import in the host (optional dependencies)
+    for dotted in host_names:
+        if rng.random() < 0.8:
+            parts = dotted.split('.')
+            for i in range(1, len(parts) + 1):
+                sub = '.'.join(parts[:i])
+                if sub in mods:
+                    continue
+                if i < len(parts) or any(o.startswith(sub + '.') for o in host_names) or rng.random() < 0.5:
+                    write('/'.join(parts[:i]) + '/__init__.py', sub)
+                else:
+                    write('/'.join(parts[:i]) + '.py', sub)
+                mods.append(sub)
     extras = []
     if rng.random() < 0.7:
         with open(os.path.join(proj, 'evil.pth'), 'w') as f:
@@ -133,7 +224,9 @@ def make_project(root, rng):
             f.write('#!/usr/bin/python\n' + sentinel_code(sent, 'bin.runner') +
                     "import sys\nsys.path[0:0] = [%r]\n" % os.path.join(proj, 'pkg'))
         extras.append('buildout')
-    return {'root': root, 'proj': proj, 'sent': sent, 'mods': mods, 'extras': extras}
+    pymods = [m for m in mods if m not in ('pyconly', 'fakeext')]
+    return {'root': root, 'proj': proj, 'sent': sent, 'mods': mods, 'extras': extras, 'files': files,
+            'pymods': pymods}
 
 
 def make_buffer(desc, rng):
@@ -158,6 +251,14 @@ def make_buffer(desc, rng):
         if rng.random() < 0.5:
             lines.append('%s.func_%s(' % (ref, tag))
             probes.append((len(lines), len(lines[-1]), 'call'))
+        if m in desc.get('pymods', ()) and rng.random() < 0.6:
+            # the value of a call / an attribute of an instance: jedi has to look into the function
+            lines.append('res_%s = %s.func_%s(%s.VALUE_%s)' % (tag, ref, tag, ref, tag))
+            lines.append('res_%s' % tag)
+            probes.append((len(lines), len(lines[-1]), 'result'))
+            lines.append('obj_%s = %s.Cls_%s(res_%s)' % (tag, ref, tag, tag))
+            lines.append('obj_%s.content' % tag)
+            probes.append((len(lines), len(lines[-1]), 'instattr'))
     lines.append('from normal import func_normal as fn_alias')
     lines.append('result = fn_alias(1)')
     probes.append((len(lines), 10, 'alias'))
@@ -165,7 +266,20 @@ def make_buffer(desc, rng):
     probes.append((len(lines), 7, 'import-complete'))
     lines.append('from gi.repository import Gtk')
     probes.append((len(lines), len(lines[-1]), 'gi'))
+    probes = [p + (None,) for p in probes]
+    # positions inside the planted files themselves (the file is the analysed buffer): a documented parameter
+    for rel, text in sorted(desc.get('files', {}).items()):
+        if rng.random() < 0.5:
+            continue
+        tl = text.split('\n')
+        for needle, kind in (('    return a', 'param'), ('        self.content = content', 'init-param')):
+            if needle in tl:
+                probes.append((tl.index(needle) + 1, len(needle), kind, rel))
     return '\n'.join(lines) + '\n', probes
+
+
+DEEP_KINDS = ('result', 'instattr', 'param', 'init-param')
+DEEP_METHODS = ('infer', 'help', 'goto', 'complete', 'get_signatures')
 
 
 METHODS = ['complete', 'infer', 'goto', 'help', 'get_references', 'get_signatures', 'get_context',
@@ -222,7 +336,9 @@ class Host:
                 fn = getattr(args[0], 'co_filename', None)
                 rec.append(('exec', fn))
             elif event == 'import':
-                rec.append(('import', args[0]))
+                # (module, filename, sys.path, sys.meta_path, sys.path_hooks): the search path this very
+                # import statement of the host is resolved against
+                rec.append(('import', (args[0], list(args[2]) if args[2] is not None else None)))
         sys.addaudithook(hook)
 
         from jedi.inference import imports, compiled
@@ -292,7 +408,7 @@ def run_project_case(case):
     os.makedirs(root)
     out = {'id': case['id'], 'queries': [], 'helper': None}
     try:
-        desc = make_project(root, rng)
+        desc = make_project(root, rng, case.get('host_names') or ())
         src, probes = make_buffer(desc, rng)
         log_file = os.path.join(root, 'helper.log')
         open(log_file, 'w').close()
@@ -326,15 +442,20 @@ def run_project_case(case):
                 pass
         s = None
         gc.collect()
-        out['desc'] = {'mods': desc['mods'], 'extras': desc['extras'], 'proj': proj}
+        out['desc'] = {'mods': desc['mods'], 'extras': desc['extras'], 'proj': proj,
+                       'files': sorted(desc['files'])}
         out['source'] = src
         todo = []
-        for (line, col, kind) in probes:
+        for (line, col, kind, rel) in probes:
             for m in METHODS:
-                todo.append((m, line, col, kind))
+                todo.append((m, line, col, kind, rel))
         rng.shuffle(todo)
-        todo = todo[:case['n_queries']]
-        for (m, line, col, kind) in todo:
+        # a third of the budget for queries that make jedi look into a function (value of a call, attribute
+        # of an instance, a parameter inside its function), the rest over everything
+        deep = [t for t in todo if t[3] in DEEP_KINDS and t[0] in DEEP_METHODS][:case['n_queries'] // 3]
+        rest = [t for t in todo if t not in deep][:max(0, case['n_queries'] - len(deep))]
+        todo = [t for t in todo if t in deep or t in rest]
+        for (m, line, col, kind, rel) in todo:
             oname, okw = options[rng.randrange(len(options))]
             with_path = rng.random() < 0.7
             before = host_state()
@@ -343,8 +464,12 @@ def run_project_case(case):
             err = None
             try:
                 project = jedi.Project(proj, **okw)
-                script = jedi.Script(src, path=main_path if with_path else None, project=project,
-                                     environment=env)
+                if rel is None:
+                    script = jedi.Script(src, path=main_path if with_path else None, project=project,
+                                         environment=env)
+                else:
+                    script = jedi.Script(desc['files'][rel], path=os.path.join(proj, rel) if with_path else None,
+                                         project=project, environment=env)
                 run_method(jedi, script, project, m, line, col)
             except Exception as e:
                 err = common.exc_site(e)
@@ -354,7 +479,15 @@ def run_project_case(case):
             script = project = None
             after = host_state()
             sent = sorted(os.listdir(desc['sent']))
-            q = {'method': m, 'line': line, 'column': col, 'kind': kind, 'option': oname,
+            host_imports = []
+            for ev, a in audit:
+                if ev == 'import' and a[1] is not None:
+                    rec_ = [a[0], [p_ for p_ in a[1] if p_ not in before['path']],
+                            [p_ for p_ in before['path'] if p_ not in a[1]]]
+                    if rec_ not in host_imports:
+                        host_imports.append(rec_)
+            q = {'method': m, 'line': line, 'column': col, 'kind': kind, 'option': oname, 'file': rel,
+                 'host_imports': host_imports,
                  'with_path': with_path, 'err': err, 'funnel': funnel, 'sentinels': sent,
                  'host_exec': sorted({fn for ev, fn in audit if ev == 'exec' and fn and str(fn).startswith(root)}),
                  'changed': []}
@@ -406,6 +539,132 @@ def _worker(case):
         return {'id': case['id'], 'infra': traceback.format_exc()[-2000:] + repr(e)}
 
 
+# ----------------------------------------------------------------- host side lazy imports (stream hostimport)
+
+FAKE_DEP = ("import os as _o\n_f = open(%r, 'a')\n_f.write(%r + '\\t' + __name__ + '\\n')\n_f.close()\n\n\n"
+            "class NumpyDocString:\n    def __init__(self, doc, config=None):\n"
+            "        self._parsed_data = {'Parameters': [], 'Returns': [], 'Yields': []}\n")
+
+
+def run_hostimport_case(case):
+    """fresh process.  Some directories hold a package named like a module jedi imports lazily in the host;
+    some of them are on the host's own sys.path, some only on the analysed project's sys path.  A history of
+    queries that consult docstrings; which directory's package was executed is read off a log."""
+    import random
+    import jedi
+    from jedi.api.environment import Environment
+    rng = random.Random(case['seed'])
+    root = os.path.join(SCRATCH, 'c12h-%d-%s' % (os.getpid(), case['id']))
+    shutil.rmtree(root, ignore_errors=True)
+    os.makedirs(root)
+    log = os.path.join(root, 'executed.log')
+    open(log, 'w').close()
+    out = {'id': case['id']}
+    wanted = set(case['host_names']) | {n.split('.')[0] for n in case['host_names']}
+    events = []
+    active = [True]
+
+    def hook(event, args):
+        # an `import` statement of the host whose module is not yet in sys.modules
+        if active[0] and event == 'import' and args[0] in wanted:
+            events.append(args[0])
+    sys.addaudithook(hook)
+    host_before = list(sys.path)
+    try:
+        proj = os.path.join(root, 'proj')
+        dirs = [proj] + [os.path.join(root, 'd%d' % i) for i in range(3)]
+        for d in dirs:
+            os.makedirs(d)
+        providers = [d for d in dirs if rng.random() < 0.5]
+        if not providers:
+            providers = [dirs[rng.randrange(len(dirs))]]
+        for d in providers:
+            for dotted in case['host_names']:
+                parts = dotted.split('.')
+                for i in range(1, len(parts) + 1):
+                    if i < len(parts) or any(o.startswith(dotted + '.') for o in case['host_names']):
+                        f = os.path.join(d, *parts[:i], '__init__.py')
+                    else:
+                        f = os.path.join(d, *parts[:i]) + '.py'
+                    os.makedirs(os.path.dirname(f), exist_ok=True)
+                    if not os.path.exists(f):
+                        with open(f, 'w') as fh:
+                            fh.write(FAKE_DEP % (log, d))
+        style = ['numpy', 'plain', 'none', 'sphinx'][rng.randrange(4)]
+        lib = module_body(root, 'lib', style).split('\n', 4)[4]     # without the sentinel prologue
+        with open(os.path.join(proj, 'lib.py'), 'w') as f:
+            f.write(lib)
+        main = 'import lib\nres = lib.func_lib(lib.VALUE_lib)\nres\nobj = lib.Cls_lib(res)\nobj.content\n'
+        # the host's own configuration: directories other than the project on its sys.path
+        host_dirs = [d for d in dirs[1:] if rng.random() < 0.5]
+        if rng.random() < 0.5:
+            sys.path[0:0] = host_dirs
+        else:
+            sys.path.extend(host_dirs)
+        host_path = list(sys.path)
+        env = Environment(sys.executable)
+        env_path = [p for p in env.get_sys_path() if p]
+        history = []
+        for k in range(rng.randrange(1, 4)):
+            extra_dirs = [d for d in dirs[1:] if rng.random() < 0.5]
+            oname, okw = [('default', dict()),
+                          ('sys_path', dict(sys_path=extra_dirs + [proj] + env_path)),
+                          ('added', dict(added_sys_path=extra_dirs)),
+                          ('nosmart', dict(smart_sys_path=False, sys_path=env_path + extra_dirs))][rng.randrange(4)]
+            kind = ['result', 'instattr', 'param'][rng.randrange(3)]
+            method = ['infer', 'help', 'complete', 'get_signatures'][rng.randrange(4)]
+            before = host_state()
+            err = None
+            extra = None
+            del events[:]
+            try:
+                project = jedi.Project(proj, **okw)
+                if kind == 'param':
+                    ll = lib.split('\n')
+                    script = jedi.Script(lib, path=os.path.join(proj, 'lib.py'), project=project, environment=env)
+                    pos = (ll.index('    return a') + 1, len('    return a'))
+                else:
+                    script = jedi.Script(main, path=os.path.join(proj, 'main.py'), project=project, environment=env)
+                    pos = (3, 3) if kind == 'result' else (5, 11)
+                extra = [str(p_) for p_ in script._inference_state.get_sys_path()]
+                res = getattr(script, method)(*pos)
+                for r_ in res:
+                    getattr(r_, 'description', None)
+            except Exception as e:
+                err = common.exc_site(e)
+            after = host_state()
+            with open(log) as f:
+                seen = [ln.split('\t')[0] for ln in f.read().splitlines()]
+            history.append({'option': oname, 'extra_dirs': extra_dirs, 'kind': kind, 'method': method, 'err': err,
+                            'project_sys_path': extra, 'looked_up': bool(events),
+                            'executed_so_far': [d for i, d in enumerate(seen) if d not in seen[:i]],
+                            'sys_path_same': after['path'] == before['path'] and after['path_id'] == before['path_id'],
+                            'cwd_env_same': after['cwd'] == before['cwd'] and after['environ'] == before['environ']})
+        env = None
+        tops = sorted({n.split('.')[0] for n in case['host_names']})
+        loaded = {}
+        for t in tops:
+            m = sys.modules.get(t)
+            fn = getattr(m, '__file__', None) if m is not None else None
+            if fn:
+                loaded[t] = [d for d in dirs if os.path.abspath(fn).startswith(d + os.sep)][:1] or [fn]
+        out.update(root=root, dirs=dirs, providers=providers, host_dirs=host_dirs, host_path=host_path,
+                   host_before=host_before, history=history, loaded=loaded, style=style)
+    finally:
+        active[0] = False
+        sys.path[:] = host_before
+        shutil.rmtree(root, ignore_errors=True)
+    return out
+
+
+def _host_worker(case):
+    try:
+        return run_hostimport_case(case)
+    except BaseException as e:
+        import traceback
+        return {'id': case['id'], 'infra': traceback.format_exc()[-2000:] + repr(e)}
+
+
 def found_of(rec):
     """which finder result the recorded call must have had (the finder itself is a parameter)"""
     if rec['loader'] == 'python':
@@ -424,7 +683,11 @@ def run(ctx):
     auto = list(settings.auto_import_modules)
     rng = ctx.subrng('projects')
     n_proj = ctx.size(9, 120)
-    cases = [{'id': 'p%d' % i, 'seed': '%s-%d' % (ctx.seed, i), 'n_queries': ctx.size(28, 120)}
+    import jedi
+    host_names = host_import_names(os.path.dirname(os.path.abspath(jedi.__file__)))
+    ctx.notes.append('C12: names jedi imports in the host that the host cannot resolve: %s' % host_names)
+    cases = [{'id': 'p%d' % i, 'seed': '%s-%d' % (ctx.seed, i), 'n_queries': ctx.size(28, 120),
+              'host_names': host_names}
              for i in range(n_proj)]
     # corpus first: past findings, regenerated from their seeds
     cdir = os.path.join(common.CORPUS_DIR, 'C12')
@@ -434,10 +697,10 @@ def run(ctx):
                 with open(os.path.join(cdir, fn)) as f:
                     c = json.load(f)
                 cases.insert(0, {'id': 'corpus-' + fn[:-5], 'seed': c['seed'], 'n_queries': ctx.size(20, 60),
-                                 'env_lists_project': bool(c.get('env_lists_project'))})
+                                 'env_lists_project': bool(c.get('env_lists_project')), 'host_names': host_names})
     # the environment itself lists the project (PYTHONPATH): the documented exception of the funnel theorem
     cases.append({'id': 'envlists', 'seed': '%s-envlists' % ctx.seed, 'n_queries': ctx.size(20, 60),
-                  'env_lists_project': True})
+                  'env_lists_project': True, 'host_names': host_names})
     t0 = time.time()
     with mp.get_context('fork').Pool(min(ctx.size(11, 16), len(cases)), maxtasksperchild=4) as pool:
         results = pool.map(_worker, cases, chunksize=1)
@@ -449,10 +712,11 @@ def run(ctx):
         how = ('build the project described in `project` under a scratch directory (every file writes a sentinel '
                'when imported), jedi.Script(source, path=..., project=jedi.Project(proj, **option), '
                'environment=Environment(helper_wrapper/python)).<method>(line, column); ./check C12 --replay <file>')
-        base = {'seed': c['seed'], 'project': r.get('desc'), 'env_lists_project': bool(c.get('env_lists_project'))}
+        base = {'seed': c['seed'], 'project': r.get('desc'), 'env_lists_project': bool(c.get('env_lists_project')),
+                'host_names': c.get('host_names'), 'n_queries': c['n_queries']}
         for q in r['queries']:
             case_d = dict(base, method=q['method'], line=q['line'], column=q['column'], option=q['option'],
-                          with_path=q['with_path'])
+                          with_path=q['with_path'], file=q['file'] or 'main_buffer.py')
             if q['err'] is not None:
                 ctx.count('raised', (c['seed'], q['method'], q['line']), nontrivial=False,
                           bucket='%s@%s' % tuple(q['err']))
@@ -540,6 +804,7 @@ def run(ctx):
                                      expected='subset of environment sys.path', observed=bad)
     else:
         ctx.notes.append('model did not build: correspondence skipped, oracle only')
+    run_hostimport(ctx, host_names)
     ctx.obligations['assumptions'] = [
         'the finder (functions._find_module / importlib) is a parameter: which finder result a name had is read '
         'off the loader jedi chose; the import system itself is not modelled',
@@ -550,10 +815,90 @@ def run(ctx):
     ]
 
 
+def run_hostimport(ctx, host_names):
+    """stream hostimport: Model.NoExec.lazyHistory against the real host-side import, one fresh process per case"""
+    import multiprocessing as mp
+    if not host_names:
+        ctx.notes.append('C12 hostimport: the host resolves every module jedi imports; nothing to plant')
+        return
+    cases = [{'id': 'h%d' % i, 'seed': '%s-h%d' % (ctx.seed, i), 'host_names': host_names}
+             for i in range(ctx.size(10, 150))]
+    t0 = time.time()
+    with mp.get_context('fork').Pool(min(ctx.size(11, 16), len(cases)), maxtasksperchild=1) as pool:
+        results = pool.map(_host_worker, cases, chunksize=1)
+    ctx.notes.append('C12 hostimport: %d cases in %.1f s' % (len(cases), time.time() - t0))
+    how = ('fresh process; directories d0..d2 and proj under a scratch root, `providers` hold a package named like '
+           'the module jedi imports lazily (it logs its directory when executed); sys.path of the process gets '
+           '`host_dirs`; then the queries of `history` on proj/main.py / proj/lib.py with the given Project '
+           'options; ./check C12 --replay <file>')
+    reqs = []
+    for c, r in zip(cases, results):
+        if 'infra' in r:
+            raise common.InfraError('hostimport case %s: %s' % (c['id'], r['infra']))
+        rel = lambda p_: os.path.relpath(p_, r['root']) if str(p_).startswith(r['root']) else p_  # noqa: E731
+        case_d = {'kind': 'hostimport', 'seed': c['seed'], 'host_names': host_names,
+                  'providers': [rel(d) for d in r['providers']], 'host_dirs': [rel(d) for d in r['host_dirs']],
+                  'history': [{k: ([rel(x) for x in v] if k == 'extra_dirs' else v) for k, v in h.items()
+                               if k in ('option', 'extra_dirs', 'kind', 'method')} for h in r['history']]}
+        executed = r['history'][-1]['executed_so_far']
+        for h in r['history']:
+            if h['err'] is not None:
+                ctx.count('raised', (c['seed'], h['method'], h['kind']), nontrivial=False, bucket='%s@%s' % tuple(h['err']))
+            # the property itself: nothing found only through the analysed project is executed by the host, and
+            # the host's sys.path / cwd / environment are what they were
+            foreign = [rel(d) for d in h['executed_so_far'] if d not in r['host_path']]
+            if foreign:
+                ctx.fail('hostimport', 'the process running jedi executed a package that only the analysed '
+                         'project\'s sys path provides', case_d,
+                         expected='only packages from directories of its own sys.path (%s)'
+                                  % [rel(d) for d in r['host_dirs']],
+                         observed={'executed': foreign, 'after_query': {k: h[k] for k in ('option', 'kind', 'method')}},
+                         how=how)
+                break
+            if not h['sys_path_same'] or not h['cwd_env_same']:
+                ctx.fail('hostimport', 'host sys.path / cwd / environment differ after the query', case_d,
+                         expected='unchanged', observed={k: h[k] for k in ('option', 'kind', 'method', 'sys_path_same',
+                                                                           'cwd_env_same')}, how=how)
+                break
+        ctx.count('hostimport', (tuple(case_d['providers']), tuple(case_d['host_dirs']),
+                                 tuple((h['option'], tuple(h['extra_dirs']), h['kind']) for h in case_d['history'])),
+                  nontrivial=bool(set(r['providers']) & set(r['host_dirs'])) or len(r['history']) > 1,
+                  bucket='lookups=%d/executed=%d/host-provides=%s/project-provides=%s' % (
+                      sum(1 for h in r['history'] if h['looked_up']), len(executed), bool(set(r['providers']) & set(r['host_dirs'])),
+                      bool(set(r['providers']) - set(r['host_dirs']))),
+                  sample={'providers': case_d['providers'], 'host_dirs': case_d['host_dirs'],
+                          'executed': [rel(d) for d in executed]})
+        reqs.append({'op': 'hostimport', 'hostPath': r['host_path'], 'providers': r['providers'],
+                     # one entry per query during which the host's import statement ran with the module not
+                     # yet loaded (afterwards the model ignores further look-ups, as the statement does)
+                     'history': [h['project_sys_path'] or [] for h in r['history'] if h['looked_up']]})
+    if not ctx.model_ok:
+        return
+    answers = common.run_driver_parallel('C12', reqs)
+    for c, r, ans in zip(cases, results, answers):
+        if 'error' in ans:
+            raise common.InfraError('driver error: %r' % ans)
+        executed = r['history'][-1]['executed_so_far']
+        tops = sorted(r['loaded'])
+        loaded = r['loaded'][tops[0]][0] if tops else None
+        if ans['executed'] != executed or (ans['loadedFrom'] != loaded and len(r['loaded']) <= 1):
+            ctx.tie_broken('correspondence:hostimport', short(
+                {'seed': c['seed'], 'model': ans, 'impl': {'executed': executed, 'loadedFrom': loaded},
+                 'providers': r['providers'], 'host_dirs': r['host_dirs']}, 1200))
+
+
 def replay(ctx, payload):
     inp = payload['input']
-    case = {'id': 'replay', 'seed': inp['seed'], 'n_queries': 10 ** 6,
-            'env_lists_project': inp.get('env_lists_project', False)}
+    if inp.get('kind') == 'hostimport':
+        r = run_hostimport_case({'id': 'replay', 'seed': inp['seed'], 'host_names': inp['host_names']})
+        for h in r['history']:
+            print(h['option'], h['kind'], h['method'], 'executed so far:', h['executed_so_far'],
+                  'host sys.path same:', h['sys_path_same'])
+        print('host_dirs:', r['host_dirs'], 'providers:', r['providers'])
+        print('expected:', payload.get('expected'), 'observed at record time:', short(payload.get('observed')))
+        return 0
+    case = {'id': 'replay', 'seed': inp['seed'], 'n_queries': inp.get('n_queries', 10 ** 6),
+            'env_lists_project': inp.get('env_lists_project', False), 'host_names': inp.get('host_names') or ()}
     r = run_project_case(case)
     for q in r['queries']:
         if q['sentinels'] or q['host_exec'] or q['changed']:
